@@ -7,6 +7,7 @@ import (
 	"go/constant"
 	"go/token"
 	"go/types"
+	"sort"
 	"strings"
 
 	"golang.org/x/tools/go/ssa"
@@ -811,4 +812,227 @@ func init() {
 	})
 	prop("C07", "C07-R8")
 	prop("C17", "C07-R8")
+}
+
+func init() {
+	reg("C17-R7", "copies of the hash table's probe cursor are not used stale: in every function of container/hash that advances a hashTableIterator with next(), a value read from a cursor field (blockPage, offset, bucket, blockID) — or a loop variable that merges such reads — is not used after a later next() unless it was read again in between: the cursor may have moved to another block page, and a probe that keeps inspecting the old page misses every entry placed past the page end", func(w *World, r *Report) {
+		itT := w.Named("container/hash", "hashTableIterator")
+		next := w.MethodObj("container/hash", "hashTableIterator", "next")
+		isCursorLoad := func(v ssa.Value) bool {
+			u, ok := v.(*ssa.UnOp)
+			if !ok || u.Op != token.MUL {
+				return false
+			}
+			fa, ok := u.X.(*ssa.FieldAddr)
+			if !ok {
+				return false
+			}
+			pt, ok := fa.X.Type().Underlying().(*types.Pointer)
+			return ok && types.Identical(pt.Elem(), itT)
+		}
+		// a definition is a cursor load or a phi all of whose leaves are cursor loads
+		var isDef func(v ssa.Value, seen map[ssa.Value]bool) bool
+		isDef = func(v ssa.Value, seen map[ssa.Value]bool) bool {
+			if isCursorLoad(v) {
+				return true
+			}
+			ph, ok := v.(*ssa.Phi)
+			if !ok {
+				return false
+			}
+			if seen[v] {
+				return true
+			}
+			seen[v] = true
+			for _, e := range ph.Edges {
+				if !isDef(e, seen) {
+					return false
+				}
+			}
+			return true
+		}
+		nFn, nUse := 0, 0
+		for _, fn := range w.RepoFuncs {
+			if w.IsTestFunc(fn) || fn.Pkg == nil || fn.Pkg.Pkg.Path() != libMod+"/container/hash" {
+				continue
+			}
+			nexts := sitesCalling(fn, next)
+			if len(nexts) == 0 {
+				continue
+			}
+			nFn++
+			fails := map[string][]string{}
+			for _, b := range fn.Blocks {
+				for _, in := range b.Instrs {
+					d, ok := in.(ssa.Value)
+					if !ok || !isDef(d, map[ssa.Value]bool{}) {
+						continue
+					}
+					refs := d.Referrers()
+					if refs == nil {
+						continue
+					}
+					name := ""
+					if ph, ok := d.(*ssa.Phi); ok {
+						name = "var " + ph.Comment
+					} else {
+						fa := d.(*ssa.UnOp).X.(*ssa.FieldAddr)
+						sst, _ := derefStruct(fa.X.Type())
+						name = "field " + sst.Field(fa.Field).Name()
+					}
+					key := funcKey(fn) + ":cursor-copy-fresh:" + name
+					if _, ok := fails[key]; !ok {
+						fails[key] = nil
+					}
+					isD := func(x ssa.Instruction) bool { return x == in }
+					// next() calls reachable from the definition without re-executing it
+					var after []ssa.Instruction
+					for _, n := range nexts {
+						n := n
+						if (&PathQ{Fn: fn, Avoid: isD, Target: func(x ssa.Instruction) bool { return x == n }}).FromAfter([]ssa.Instruction{in}) != nil {
+							after = append(after, n)
+						}
+					}
+					for _, u := range *refs {
+						if _, isPhi := u.(*ssa.Phi); isPhi {
+							continue // the merge is a definition of its own
+						}
+						nUse++
+						if len(after) == 0 {
+							continue
+						}
+						u := u
+						if wit := (&PathQ{Fn: fn, Avoid: isD, Target: func(x ssa.Instruction) bool { return x == u }}).FromAfter(after); wit != nil {
+							fails[key] = append(fails[key], "the value read at "+w.InstrPos(in)+" is used at "+w.InstrPos(u)+" after the cursor advanced at "+w.InstrPos(wit.Start)+" without being read again")
+						}
+					}
+				}
+			}
+			for _, key := range sortedKeysOf(fails) {
+				r.Check(len(fails[key]) == 0, key, "a cursor field read before next() is not used after it", strings.Join(uniq(fails[key]), "; "))
+			}
+		}
+		r.Floor("functions advancing a hash probe cursor", nFn, 3)
+		r.Floor("uses of cursor copies examined", nUse, 20)
+	})
+	prop("C17", "C17-R7")
+	prop("C07", "C17-R7")
+}
+
+func sortedKeysOf(m map[string][]string) []string {
+	var ks []string
+	for k := range m {
+		ks = append(ks, k)
+	}
+	sort.Strings(ks)
+	return ks
+}
+
+func init() {
+	reg("C15-R8", "the space check measures the row that is written, and room is made before it is used: in TablePage.UpdateTuple and InsertTuple every Tuple.Size() that a branch on getFreeSpaceRemaining() depends on is taken from the very tuple whose bytes go into the page (for a column-list UPDATE the merged row, not the caller's list of new values); in UpdateTuple the rows below are shifted (copy within the page) before the new image is copied in — a growing image starts inside the old place of the row below", func(w *World, r *Report) {
+		a := w.A()
+		free := w.MethodObj("storage/access", "TablePage", "getFreeSpaceRemaining")
+		tSize := w.MethodObj("storage/tuple", "Tuple", "Size")
+		tData := w.MethodObj("storage/tuple", "Tuple", "Data")
+		setTuple := w.MethodObj("storage/access", "TablePage", "setTuple")
+		isCopy := func(in ssa.Instruction) (*ssa.Call, bool) {
+			c, ok := in.(*ssa.Call)
+			if !ok {
+				return nil, false
+			}
+			bi, ok := c.Call.Value.(*ssa.Builtin)
+			return c, ok && bi.Name() == "copy" && len(c.Call.Args) == 2
+		}
+		recvOf := func(v ssa.Value) ssa.Value { return resolveCell(stripConv(v)) }
+		measured := func(fn *ssa.Function, written ssa.Value, label string) {
+			n := 0
+			for _, b := range fn.Blocks {
+				i := blockIf(b)
+				if i == nil || !DependsOn(i.Cond, IsCallTo(free)) {
+					continue
+				}
+				n++
+				var other []string
+				own := false
+				for v := range BackSlice(i.Cond).Vals {
+					c, ok := v.(*ssa.Call)
+					if !ok || CalleeObj(c) != tSize {
+						continue
+					}
+					if recvOf(c.Call.Args[0]) == written {
+						own = true
+					} else {
+						other = append(other, w.InstrPos(c))
+					}
+				}
+				sort.Strings(other)
+				r.Check(own && len(other) == 0, label+":space-check-measures-written-tuple"+ordinalOfBlock(fn, b, func(bb *ssa.BasicBlock) bool {
+					ii := blockIf(bb)
+					return ii != nil && DependsOn(ii.Cond, IsCallTo(free))
+				}), "the free-space test uses the size of the tuple that is written", fmt.Sprintf("branch at %s: uses the written tuple's size: %v; sizes of other tuples: %v", w.InstrPos(i), own, other))
+			}
+			r.Floor("branches on getFreeSpaceRemaining() in "+label, n, 1)
+		}
+		// UpdateTuple: the image copy and the shift
+		upd := w.SSA(a.TPUpdate)
+		var images, shifts []ssa.Instruction
+		var written ssa.Value
+		for _, b := range upd.Blocks {
+			for _, in := range b.Instrs {
+				c, ok := isCopy(in)
+				if !ok || !DependsOn(c.Call.Args[0], a.isPageDataSource) {
+					continue
+				}
+				if DependsOn(c.Call.Args[1], a.isPageDataSource) {
+					shifts = append(shifts, in)
+					continue
+				}
+				for v := range BackSlice(c.Call.Args[1]).Vals {
+					if d, ok := v.(*ssa.Call); ok && CalleeObj(d) == tData {
+						images = append(images, in)
+						written = recvOf(d.Call.Args[0])
+					}
+				}
+			}
+		}
+		r.Check(len(images) == 1 && len(shifts) >= 1 && written != nil, "UpdateTuple:image-copy-and-shift-found", "UpdateTuple copies one new image into the page and shifts the rows below", fmt.Sprintf("image copies: %d, shifts: %d", len(images), len(shifts)))
+		if len(images) == 1 && written != nil {
+			measured(upd, written, "UpdateTuple")
+			isShift := func(x ssa.Instruction) bool {
+				for _, s := range shifts {
+					if s == x {
+						return true
+					}
+				}
+				return false
+			}
+			wit := (&PathQ{Fn: upd, Avoid: isShift, Target: func(x ssa.Instruction) bool { return x == images[0] }}).FromEntry()
+			r.Check(wit == nil, "UpdateTuple:shift-before-image", "the rows below are moved out of the way before the new image is written", "the new image is copied in at "+w.InstrPos(images[0])+" on a path that has not yet shifted the tuple area: a growing row overwrites the tail of its lower neighbour, which the shift then carries along")
+		}
+		ins := w.SSA(a.TPInsert)
+		var wIns ssa.Value
+		EachCall(ins, func(c ssa.CallInstruction) {
+			if CalleeObj(c) == setTuple {
+				wIns = recvOf(c.Common().Args[2])
+			}
+		})
+		r.Check(wIns != nil, "InsertTuple:setTuple-found", "InsertTuple writes through setTuple", "no setTuple call")
+		if wIns != nil {
+			measured(ins, wIns, "InsertTuple")
+		}
+	})
+	prop("C15", "C15-R8")
+}
+
+func ordinalOfBlock(fn *ssa.Function, b *ssa.BasicBlock, pred func(*ssa.BasicBlock) bool) string {
+	n := 0
+	for _, x := range fn.Blocks {
+		if pred(x) {
+			n++
+			if x == b {
+				return "#" + itoa(n)
+			}
+		}
+	}
+	return ""
 }
